@@ -117,38 +117,31 @@ func (ex *Exec) dbAxioms() []dbAxiom {
 	return ex.dbAx
 }
 
-// buildQuery renders one subgoal as an SMT-LIB script.
-func (ex *Exec) buildQuery(o *Obligation, sg subgoal, exclude string, values []*Term) string {
-	var asserts []*Term
+// collectAsserts gathers the hypotheses of one subgoal: the function's
+// axioms up to the obligation, the path condition, the subgoal's local
+// hypotheses, and the relevance-filtered database axioms.
+func (ex *Exec) collectAsserts(o *Obligation, sg subgoal, exclude string) (asserts []*Term, neg *Term, extra []*Term) {
 	asserts = append(asserts, ex.axioms[:o.NAxioms]...)
-	// literals created later (by goal evaluation) still need their byte axioms:
-	// they are appended to ex.axioms after NAxioms, so include all literal axioms.
+	// literals created later (by goal evaluation) still need their byte axioms
 	asserts = append(asserts, ex.litAxiomsAfter(o.NAxioms)...)
 	asserts = append(asserts, o.Path)
 	asserts = append(asserts, sg.hyps...)
-	neg := Not(sg.goal)
+	neg = Not(sg.goal)
 	if o.IsCover {
 		neg = True
 	}
 	all := append(append([]*Term{}, asserts...), neg)
-	// relevance-filtered database axioms
 	used := map[string]bool{}
 	collect := func(ts []*Term) {
 		for _, t := range ts {
 			t.Walk(func(x *Term) {
 				if x.IsSym {
 					used[x.Op] = true
-				} else {
-					switch x.Op {
-					case "sid":
-						used["sid"] = true
-					}
 				}
 			})
 		}
 	}
 	collect(all)
-	var extra []*Term
 	axs := ex.dbAxioms()
 	included := map[int]bool{}
 	for changed := true; changed; {
@@ -173,13 +166,25 @@ func (ex *Exec) buildQuery(o *Obligation, sg subgoal, exclude string, values []*
 			}
 		}
 	}
-	all = append(all, extra...)
+	return
+}
+
+// buildQuery renders one subgoal as an SMT-LIB script.
+func (ex *Exec) buildQuery(o *Obligation, sg subgoal, exclude string, values []*Term) string {
+	asserts, neg, extra := ex.collectAsserts(o, sg, exclude)
+	all := append(append(append([]*Term{}, asserts...), extra...), neg)
+	used := map[string]bool{}
+	for _, t := range all {
+		t.Walk(func(x *Term) {
+			if x.IsSym {
+				used[x.Op] = true
+			} else if x.Op == "sid" {
+				used["sid"] = true
+			}
+		})
+	}
 	var sb strings.Builder
 	sb.WriteString(Preamble)
-	ex.D.Declare("concat", SStr, SStr, SStr)
-	ex.D.Declare("chr", SStr, SInt)
-	ex.D.Declare("card", SInt, ArrS(SInt, SBool))
-	ex.D.Declare("subobj", SInt, SInt, SInt)
 	ex.D.EmitFor(&sb, append(all, values...))
 	eng := map[string]bool{}
 	for _, n := range []string{"concat", "chr", "card", "subobj", "sid"} {
@@ -187,7 +192,6 @@ func (ex *Exec) buildQuery(o *Obligation, sg subgoal, exclude string, values []*
 			eng[n] = true
 		}
 	}
-	// engine axioms need their function declared even if EmitFor skipped it
 	sb.WriteString(ex.engineAxioms(eng))
 	for _, a := range asserts {
 		sb.WriteString("(assert ")
